@@ -34,8 +34,55 @@ func tokenIndex(bs []*Term, n int, m0, m1 byte) (int, bool) {
 	return int(raw[2]) | int(raw[3])<<8, true
 }
 
+type sigRec struct {
+	kind string // "bls" or "ecdsa"
+	key  int
+	msg  []*Term
+}
+
+func mkToken(n int, m0, m1 byte, id int) []*Term {
+	out := make([]*Term, n)
+	for j := range out {
+		out[j] = BVU(8, 0)
+	}
+	out[0], out[1], out[2], out[3] = BVU(8, uint64(m0)), BVU(8, uint64(m1)), BVU(8, uint64(id&0xff)), BVU(8, uint64(id>>8))
+	return out
+}
+
 func init() {
 	I := intrinsics
+	// single signatures: token -> (kind, key index, message); verification = exact match
+	I[vrtKey("BLSSig")] = func(e *Exec, fn *ssa.Function, a []Value) Value {
+		id := len(e.sigRecs)
+		e.sigRecs = append(e.sigRecs, sigRec{kind: "bls", key: e.concreteInt(a[1], "signer"), msg: append([]*Term{}, sliceTerms(a[2])...)})
+		return mkByteSlice(mkToken(48, 0xA7, 0x52, id))
+	}
+	I[vrtKey("TxKey")] = func(e *Exec, fn *ssa.Function, a []Value) Value {
+		return mkByteSlice(mkToken(33, 0x02, 0xEC, e.concreteInt(a[1], "signer")))
+	}
+	I[vrtKey("TxSig")] = func(e *Exec, fn *ssa.Function, a []Value) Value {
+		id := len(e.sigRecs)
+		e.sigRecs = append(e.sigRecs, sigRec{kind: "ecdsa", key: e.concreteInt(a[1], "signer"), msg: append([]*Term{}, sliceTerms(a[2])...)})
+		return mkByteSlice(mkToken(64, 0xA8, 0x53, id))
+	}
+	I[goatCrypto+".Verify"] = func(e *Exec, fn *ssa.Function, a []Value) Value {
+		e.CallLog = append(e.CallLog, "bls.Verify")
+		ki, ok := tokenIndex(sliceTerms(a[0]), 96, 0xB5, 0x4B)
+		si, ok2 := tokenIndex(sliceTerms(a[2]), 48, 0xA7, 0x52)
+		if !ok || !ok2 || si >= len(e.sigRecs) || e.sigRecs[si].kind != "bls" || e.sigRecs[si].key != ki {
+			return tFalse
+		}
+		return bytesEq(sliceTerms(a[1]), e.sigRecs[si].msg)
+	}
+	I["github.com/ethereum/go-ethereum/crypto.VerifySignature"] = func(e *Exec, fn *ssa.Function, a []Value) Value {
+		e.CallLog = append(e.CallLog, "ecdsa.VerifySignature")
+		ki, ok := tokenIndex(sliceTerms(a[0]), 33, 0x02, 0xEC)
+		si, ok2 := tokenIndex(sliceTerms(a[2]), 64, 0xA8, 0x53)
+		if !ok || !ok2 || si >= len(e.sigRecs) || e.sigRecs[si].kind != "ecdsa" || e.sigRecs[si].key != ki {
+			return tFalse
+		}
+		return bytesEq(sliceTerms(a[1]), e.sigRecs[si].msg)
+	}
 	I[vrtKey("BLSKey")] = func(e *Exec, fn *ssa.Function, a []Value) Value {
 		return mkByteSlice(keyToken(e.concreteInt(a[1], "BLSKey index")))
 	}
